@@ -420,6 +420,18 @@ class Interp:
             left = right
         if len(parts) == 1:
             p = parts[0]
+            if is_const(p[2]) and is_const(p[3]) and p[1] in ("Lt", "Gt", "LtE", "GtE", "Eq", "NotEq", "Is", "IsNot"):
+                a, b = p[2][1], p[3][1]
+                try:
+                    if p[1] in ("Is", "IsNot"):
+                        if a is None or b is None or isinstance(a, bool) or isinstance(b, bool):
+                            r = (a is b) if p[1] == "Is" else (a is not b)
+                            return const(r)
+                    else:
+                        r = {"Lt": a < b, "Gt": a > b, "LtE": a <= b, "GtE": a >= b, "Eq": a == b, "NotEq": a != b}[p[1]]
+                        return const(bool(r))
+                except TypeError:
+                    pass
             if p[1] == "IsNot":
                 return mk_not(("cmp", "Is", p[2], p[3]))
             if p[1] == "NotIn":
@@ -454,6 +466,13 @@ class Interp:
             self._absorb(st, guard, f, sub, tree, getattr(e, "lineno", None))
             vals.append(v)
             cur = ("bool", "or" if is_or else "and", tuple(vals))
+        # constant absorbing element decides: ``True or x``, ``False and x``
+        for i, v in enumerate(vals):
+            if is_const(v) and bool(v[1]) == is_or:
+                vals = vals[: i + 1]
+                if i == 0:
+                    return v
+                break
         # drop constant identities: ``x or False``, ``x and True``
         keep = [v for v in vals if not is_const(v, False if is_or else True)]
         if not keep:
@@ -464,6 +483,8 @@ class Interp:
 
     def ev_IfExp(self, st, n, tree):
         c = self.ev(st, n.test, tree)
+        if is_const(c):
+            return self.ev(st, n.body if c[1] else n.orelse, tree)
         a, sa, fa = self._branch(st, c, lambda s, t: self.ev(s, n.body, t))
         b, sb, fb = self._branch(st, mk_not(c), lambda s, t: self.ev(s, n.orelse, t))
         self._absorb(st, c, fa, sa, tree, n.lineno, sb, fb)
@@ -843,6 +864,15 @@ class Interp:
         """Returns None when evaluated in place (state merged into ``st``); otherwise the outcome of
         if + rest (the rest having been nested into the branch that stays live)."""
         c = self.ev(st, s.test, tree)
+        if is_const(c):
+            # statically decided: only the taken branch exists
+            o = self.exec_block(s.body if c[1] else s.orelse, st, tree)
+            if o.live is not None and o.ret is None and o.brk is None and o.cont is None:
+                return None
+            if o.live is None:
+                return o
+            o2 = self.exec_block(rest, o.live, tree)
+            return Outcome(o2.live, self._merge_exit(o.ret, o2.ret), self._merge_exit(o.brk, o2.brk), self._merge_exit(o.cont, o2.cont))
         ft, fe = st.fork(), st.fork()
         tt: list = []
         te: list = []
